@@ -432,30 +432,31 @@ impl<
     ) -> Result<u64, ListenerWaitError> {
         let mgmt = self.storage.get();
 
-        let mut drain = || -> Result<u64, ListenerWaitError> {
+        // The trigger buffer must only be emptied BEFORE the notification state is reset to idle.
+        // Otherwise the trigger of a notifier that is still between "trigger" and "state :=
+        // notified" could be consumed after the reset. That notifier would then leave the state
+        // at notified although no trigger is pending and the listener is not going to drain,
+        // all later notifiers would skip their trigger and a blocking wait would sleep forever
+        // despite of pending events.
+        if mgmt.notification_state.load(Ordering::SeqCst) == NOTIFICATION_STATE_NOTIFIED {
             fail!(from self, when self.waiter.empty_buffer(),
                 "{msg} since the wait buffer could not be emptied.");
-            Ok(self.storage.get().event.drain(&mut callback))
-        };
-
-        if mgmt
-            .notification_state
-            .compare_exchange(
+            let _ = mgmt.notification_state.compare_exchange(
                 NOTIFICATION_STATE_NOTIFIED,
                 NOTIFICATION_STATE_IDLE,
                 Ordering::SeqCst,
                 Ordering::SeqCst,
-            )
-            .is_ok()
-        {
-            return drain();
+            );
+            return Ok(self.storage.get().event.drain(&mut callback));
         }
 
         fail!(from self, when wait_call(),
             "{msg} since the underlying wait call failed.");
+        fail!(from self, when self.waiter.empty_buffer(),
+            "{msg} since the wait buffer could not be emptied.");
         mgmt.notification_state
             .store(NOTIFICATION_STATE_IDLE, Ordering::SeqCst);
-        drain()
+        Ok(self.storage.get().event.drain(&mut callback))
     }
 }
 
